@@ -296,6 +296,8 @@ def strat_op(draw, n, allow_reuse_of=0, differentiable_only=False, depth=0):
         nc = draw(st.integers(1, n - k))
         return dict(op='cmatrix', c=sorted(perm[:nc]), t=list(perm[nc:nc + k]), prng=draw(st.integers(0, 2 ** 31)))
     if kind == 'custom_u':
+        if n >= 2 and draw(st.booleans()):
+            return dict(op='custom_u2', q=list(perm[:2]), args=[draw(ang)])
         return dict(op='custom_u', q=[perm[0]], args=[draw(ang), draw(ang)])
     if kind == 'custom_c':
         k = draw(st.integers(1, min(2, n)))
@@ -339,8 +341,27 @@ def _hf_ry_rx(alpha, beta):
     return np.stack([cc + 1j * ss, -1j * sc - cs, cs - 1j * sc, cc - 1j * ss], axis=-1).reshape(*alpha.shape, 2, 2)
 
 
+def _hf_rxy(theta):
+    """two-qubit user gate exp(-i theta/2 X (x) Y) = cos(theta/2) I - i sin(theta/2) X (x) Y: NOT symmetric under exchange of its two wires (numpy or torch)"""
+    import torch
+    XY = np.kron(ref.SX, ref.SY)
+    if isinstance(theta, torch.Tensor):
+        cdt = torch.complex64 if theta.dtype == torch.float32 else torch.complex128
+        c, s_ = torch.cos(theta / 2).to(cdt), torch.sin(theta / 2).to(cdt)
+        eye, xy = torch.eye(4, dtype=cdt), torch.tensor(XY, dtype=cdt)
+        return c[..., None, None] * eye - 1j * s_[..., None, None] * xy
+    theta = np.asarray(theta)
+    return np.cos(theta / 2)[..., None, None] * np.eye(4) - 1j * np.sin(theta / 2)[..., None, None] * XY
+
+
 def make_custom_classes():
     nq = _nq()
+
+    class RxyGate(nq.sim.ParameterGate):
+        def __init__(self, index, theta=0, requires_grad=True):
+            super().__init__(kind='unitary', hf0=_hf_rxy, args=(theta,), name='rxy', requires_grad=requires_grad)
+            self.index = tuple(int(x) for x in index)
+    make_custom_classes.RxyGate = RxyGate
 
     class RyRxGate(nq.sim.ParameterGate):
         def __init__(self, index, alpha=0, beta=0, requires_grad=True):
@@ -371,6 +392,7 @@ def build(program, requires_grad=False):
     circ = nq.sim.Circuit(default_requires_grad=requires_grad)
     circ.register_custom_gate('ry_rx', RyRxGate)
     circ.register_custom_gate('perm', PermGate)
+    circ.register_custom_gate('rxy', make_custom_classes.RxyGate)
     reflist = []
     gates = []  # (gate object or None, ref entry) per top-level op for 'reuse'
     sig = set()
@@ -427,6 +449,11 @@ def build(program, requires_grad=False):
             g = c.ry_rx(op['q'][0], op['args'][0], op['args'][1], requires_grad=requires_grad)
             e = (ref.ry(op['args'][1]) @ ref.rx(op['args'][0]), tuple(op['q']), ())
             sig.add('custom-unitary')
+        elif name == 'custom_u2':
+            g = c.rxy(tuple(op['q']), op['args'][0], requires_grad=requires_grad)
+            e = (_hf_rxy(op['args'][0]), tuple(op['q']), ())
+            sig.add('custom-unitary')
+            sig.add('custom two-qubit' + (' descending wires' if op['q'][0] > op['q'][1] else ''))
         elif name == 'custom_c':
             g = c.perm(tuple(op['q']), op['prng'])
             e = (_rand_unitary_from_seed(op['prng'], len(op['q'])), tuple(op['q']), ())
@@ -468,6 +495,7 @@ def build(program, requires_grad=False):
             c0 = nq.sim.Circuit(default_requires_grad=requires_grad)
             c0.register_custom_gate('ry_rx', RyRxGate)
             c0.register_custom_gate('perm', PermGate)
+            c0.register_custom_gate('rxy', make_custom_classes.RxyGate)
             es = []
             for o in op['ops']:
                 _, e = emit(c0, o)
